@@ -126,6 +126,7 @@ def run_one(sim, params):
         return [(simnet.DELIVER, net.latency, payload)]
     net.hook = hook
     res = {}
+    nburst = sim.pick("traffic.burst", [0, 3, 4])
     state = {"done": {"A": False, "B": False}}
     t0 = k.now()
 
@@ -141,6 +142,14 @@ def run_one(sim, params):
             res[name + ".mac"] = {"miu": llc.mac.miu, "rwt": llc.mac.rwt, "brty": llc.mac.target.brty,
                                   "did": llc.mac.did, "nad": getattr(llc.mac, "nad", None)}
             res[name + ".cfg"] = dict(llc.cfg)
+            # every LLC frame handed to the NFC-DEP layer is measured against the link MIU the peer announced
+            sent = res.setdefault(name + ".sent", [])
+
+            def measured(send_data, timeout, _x=llc.mac.exchange):
+                if send_data is not None and len(send_data) >= 2:
+                    sent.append((((send_data[0] & 3) << 2) | (send_data[1] >> 6), len(send_data)))
+                return _x(send_data, timeout)
+            llc.mac.exchange = measured
             s = nfc.llcp.Socket(llc, nfc.llcp.LOGICAL_DATA_LINK)
             s.bind(33)
             got = []
@@ -149,10 +158,13 @@ def run_one(sim, params):
                 try:
                     n = s.getsockopt(nfc.llcp.SO_SNDMIU)
                     res[name + ".sndmiu"] = n
+                    # several datagrams pending at once (candidates for one aggregated frame), then the largest one
+                    for i in range(nburst):
+                        s.sendto(bytes(max(1, n // 2 - 6 + i)), 33, nfc.llcp.MSG_DONTWAIT)
                     s.sendto(bytes(n), 33)
                     s.sendto(b"x", 33)
-                    for _ in range(2):
-                        if s.poll("recv", 3.0):
+                    for i in range(2 + 5):
+                        if s.poll("recv", 3.0 if i < 2 else 0.3):
                             got.append(len(s.recvfrom()[0]))
                 except nfc.llcp.Error as e:
                     res[name + ".app.err"] = e.errno
@@ -243,6 +255,16 @@ def run_one(sim, params):
     for me, peer_pax in ((ini, pax_t), (tgt, pax_i)):
         if res.get(me + ".sndmiu") is not None:
             req(res[me + ".sndmiu"] == peer_pax["miu"], "socket-miu", me, "LDL socket send MIU %r, peer link MIU %r" % (res[me + ".sndmiu"], peer_pax["miu"]))
+    for me, peer_pax in ((ini, pax_t), (tgt, pax_i)):
+        for (ptype, n) in res.get(me + ".sent") or []:
+            hdr = 3 if ptype == 12 else 2
+            if n - hdr > peer_pax["miu"]:
+                sim.probe("traffic.oversize")
+            req(n - hdr <= peer_pax["miu"], "frame-exceeds-miu", "AGF" if ptype == 2 else "ptype %d" % ptype,
+                "%s sent an LLC frame with an information field of %d octets, the peer announced link MIU %d"
+                % (me, n - hdr, peer_pax["miu"]))
+        if any(pt == 2 for pt, n in res.get(me + ".sent") or []):
+            sim.probe("traffic.agf")
     for me, other in ((ini, tgt), (tgt, ini)):
         got = res.get(me + ".got") or []
         want_n = res.get(other + ".sndmiu")
